@@ -149,7 +149,13 @@ class Seeds:
 
     def __init__(self, rng, W, binpath):
         self.json = {}
-        docs = [docgen.rand_layout(rng, W, 0.5) for _ in range(6)] + [docgen.rand_link(rng, 0.5) for _ in range(6)]
+        # plain seed documents: the hostile content is put in afterwards by the mutators, the seeds themselves must be
+        # documents every version of the library can represent
+        docs = [docgen.rand_layout(rng, W, 0.0) for _ in range(6)] + [docgen.rand_link(rng, 0.0) for _ in range(6)]
+        for d in docs:
+            for fld in ("materials", "products"):
+                if fld in d:
+                    d[fld] = {k: v for k, v in d[fld].items() if k in ("foo", "bar", "src/a.c", "src/b.c", "dir/sub/x", "foo.tar.gz", "x/y/z")}
         wires = scen.sign_all(binpath, [(d, [rng.choice(common.FAST_KEYS)], "new") for d in docs], nproc=1)
         self.json["metablock"] = wires
         self.json["layout"] = [d for d in docs if d["_type"] == "layout"]
@@ -236,7 +242,7 @@ def gen_entry_cases(rng, seeds, n):
 
 
 HOSTILE_PATHS = ["a/./b", "./a", "a//b", "a/../a", "/abs", "", ".", "..", "a/b/../../..", "é", "a" * 5000, "*", "[", "a/./b/./c",
-                 "x/../x", "./x", "x"]
+                 "x/../x", "./x", "x", "/", "//", "/usr/..", "src/", "src", "src/x"]
 
 
 def gen_rule_cases(rng, n):
@@ -251,6 +257,10 @@ def gen_rule_cases(rng, n):
             r = docgen.rand_rule(rng, ("ref", "item", "ghost"), 0.5)
             if rng.random() < 0.5:
                 r[1] = rng.choice(HOSTILE_PATHS + TOKENS_STR[:20])
+            if r[0] == "MATCH" and rng.random() < 0.4:
+                # prefixes that leave nothing (or something odd) of the path once stripped
+                r = ["MATCH", rng.choice(["*", "", "x"]), "IN", rng.choice(["", "/", "src", "src/", "a/.", "."]), "WITH",
+                     rng.choice(["MATERIALS", "PRODUCTS"])] + rng.choice([[], ["IN", rng.choice(["", "/", "dst"])]]) + ["FROM", rng.choice(["ref", "item"])]
             return r
         item = scen.mk_step("item", 1, [], [], [rule() for _ in range(rng.randrange(0, 4))], [rule() for _ in range(rng.randrange(0, 4))])
         cases.append({"op": "rules", "kind": "step", "item": item, "links": links, "meta": {"cls": "rules_adversarial"}})
